@@ -576,6 +576,7 @@ func (f *Frame) checkPost(bi *BInfo, vals []T) {
 		return
 	}
 	env := f.postEnv(bi.out, vals)
+	f.applyGhostSets(fc, env, bi.out)
 	for i, c := range fc.Ensures {
 		v, err := env.evalBool(c.Expr)
 		if err != nil {
@@ -612,5 +613,33 @@ func (f *Frame) evalLets(env *SpecEnv) {
 			continue
 		}
 		env.vars[l.Name] = v
+	}
+}
+
+// applyGhostSets executes the ghost assignments of a contract (`ghostset g := e`) in state st;
+// e is evaluated in env (the state before the assignments).
+func (f *Frame) applyGhostSets(fc *FuncContract, env *SpecEnv, st *State) {
+	g := f.g
+	type upd struct {
+		l *Loc
+		v string
+	}
+	var ups []upd
+	for _, gs := range fc.GhostSets {
+		v, err := env.evalAny(gs.Expr)
+		if err != nil {
+			g.resolutionFailure(f, fmt.Sprintf("ghostset %s: %v", gs.Name, err))
+			continue
+		}
+		gd, ok := g.cs.Ghosts[env.pkgPath()+"::"+gs.Name]
+		if !ok {
+			g.resolutionFailure(f, fmt.Sprintf("ghostset %s: not a ghost of %s", gs.Name, env.pkgPath()))
+			continue
+		}
+		t := env.resolveType(gd.Type)
+		ups = append(ups, upd{g.ghostLoc(env.pkgPath(), gs.Name, t), v.S})
+	}
+	for _, u := range ups {
+		g.store(st, u.l, u.v)
 	}
 }
